@@ -18,6 +18,7 @@ import itertools
 import z3
 
 I, R, B = z3.IntSort(), z3.RealSort(), z3.BoolSort()
+DOT = z3.Function('dot_R', z3.ArraySort(I, R), z3.ArraySort(I, R), I, I, R)      # ghost: sum_{lo <= j < hi} a[j]*b[j]
 
 
 class Unsupported(Exception):
@@ -370,6 +371,9 @@ class Gen(object):
                 e0 = dict(env)
                 e0.update(self.entry_env)
                 return self.sterm(n.args[0], e0)
+            if f == 'dot':          # dot(a, b, lo, hi) ghost
+                a_, b_ = ev(n.args[0]), ev(n.args[1])
+                return DOT(a_.arr, b_.arr, ev(n.args[2]), ev(n.args[3]))
             if f == 'sum':          # sum(a, lo, hi) ghost
                 l = ev(n.args[0])
                 return self.sumfn(l)(l.arr, ev(n.args[1]), ev(n.args[2]))
@@ -791,6 +795,25 @@ class Gen(object):
                                     ('forall', [jv], ('implies', atom(z3.And(lo <= jv, jv < hi)), atom(z3.And(jv >= 0, jv < X.ln)))),
                                     'safety', n.lineno)
                         return self.sumfn(X)(X.arr, lo, z3.If(hi >= lo, hi, lo))
+                # sum([X[j] * Y[j] for j in range(lo, hi)])  ==  the ghost dot(X, Y, lo, hi)
+                if isinstance(a0, ast.ListComp) and len(a0.generators) == 1 and not a0.generators[0].ifs \
+                        and isinstance(a0.generators[0].target, ast.Name) and isinstance(a0.elt, ast.BinOp) \
+                        and isinstance(a0.elt.op, ast.Mult) \
+                        and all(isinstance(t, ast.Subscript) and isinstance(t.slice, ast.Name)
+                                and t.slice.id == a0.generators[0].target.id for t in (a0.elt.left, a0.elt.right)) \
+                        and isinstance(a0.generators[0].iter, ast.Call) and isinstance(a0.generators[0].iter.func, ast.Name) \
+                        and a0.generators[0].iter.func.id == 'range' and len(a0.generators[0].iter.args) in (1, 2):
+                    jn = a0.generators[0].target.id
+                    if all(jn not in {x.id for x in ast.walk(t.value) if isinstance(x, ast.Name)} for t in (a0.elt.left, a0.elt.right)):
+                        X, Y = ev(a0.elt.left.value), ev(a0.elt.right.value)
+                        rng = [ev(x) for x in a0.generators[0].iter.args]
+                        lo, hi = (z3.IntVal(0), rng[0]) if len(rng) == 1 else (rng[0], rng[1])
+                        if isinstance(X, SList) and isinstance(Y, SList) and X.et == 'real' and Y.et == 'real':
+                            jv = z3.Int('j?')
+                            self.oblige('index-in-range@%d' % n.lineno, path,
+                                        ('forall', [jv], ('implies', atom(z3.And(lo <= jv, jv < hi)),
+                                                          atom(z3.And(jv >= 0, jv < X.ln, jv < Y.ln)))), 'safety', n.lineno)
+                            return DOT(X.arr, Y.arr, lo, z3.If(hi >= lo, hi, lo))
                 l = ev(a0)
                 if isinstance(l, SList) and not l.nested():
                     return self.sumfn(l)(l.arr, z3.IntVal(0), l.ln)
@@ -1202,10 +1225,19 @@ class Gen(object):
             it = st.iter
             if isinstance(it, ast.Call) and isinstance(it.func, ast.Name) and it.func.id == 'range':
                 rng = [self.expr(a, path) for a in it.args]
+                down = False
                 if len(rng) == 3:
-                    raise Unsupported('range with step')
+                    st3 = z3.simplify(rng[2])
+                    if not (z3.is_int_value(st3) and st3.as_long() == -1):
+                        raise Unsupported('range with a step other than -1')
+                    down = True
                 lo, hi = (z3.IntVal(0), rng[0]) if len(rng) == 1 else (rng[0], rng[1])
                 kind = 'range'
+                if down:
+                    # range(a, b, -1): positions count up from 0, the loop variable is a - position
+                    kind = 'rangedown'
+                    down_start = lo
+                    lo, hi = z3.IntVal(0), z3.If(rng[0] > rng[1], rng[0] - rng[1], z3.IntVal(0))
             elif isinstance(it, ast.Call) and isinstance(it.func, ast.Name) and it.func.id == 'zip':
                 ls = [self.expr(a, path) for a in it.args]
                 lo = z3.IntVal(0)
@@ -1241,6 +1273,9 @@ class Gen(object):
             path.env[idx] = lo
             if kind == 'range' and isinstance(st.target, ast.Name):
                 path.env[st.target.id] = lo       # loop variable == position at the loop head
+            if kind == 'rangedown':
+                path.env['_start%d' % k] = down_start
+                path.env[st.target.id] = down_start
         for ghost, src in spec.get('snapshot', {}).items():
             path.env[ghost] = path.env[src]          # ghost copy of a variable's value at loop entry
         # establish
@@ -1256,6 +1291,8 @@ class Gen(object):
             path.env[idx] = fresh(idx, I)
             if kind == 'range' and isinstance(st.target, ast.Name):
                 path.env[st.target.id] = path.env[idx]
+            if kind == 'rangedown':
+                path.env[st.target.id] = path.env['_start%d' % k] - path.env[idx]
             path.hyps.append(atom(z3.And(path.env['_lo%d' % k] <= path.env[idx], path.env[idx] <= path.env['_hi%d' % k])))
         for txt in invs:
             path.hyps.append(self.spec(txt, path.env))
@@ -1292,6 +1329,8 @@ class Gen(object):
                 e.env[idx] = pos + 1
                 if kind == 'range' and isinstance(st.target, ast.Name):
                     e.env[st.target.id] = pos + 1
+                if kind == 'rangedown':
+                    e.env[st.target.id] = e.env['_start%d' % k] - (pos + 1)
             ext = {'head_' + nm: v for nm, v in head_env.items() if isinstance(nm, str)}
             e2 = dict(e.env)
             e2.update(ext)
@@ -1308,6 +1347,8 @@ class Gen(object):
         # exit
         if is_for:
             path.hyps.append(atom(path.env[idx] == path.env['_hi%d' % k]))
+            if kind == 'rangedown':
+                path.env[st.target.id] = fresh(st.target.id, I)      # value after the loop is not used by the targets
             if kind == 'range' and isinstance(st.target, ast.Name):
                 # Python leaves the last iterated value in the loop variable (unchanged if no iteration)
                 last = fresh(st.target.id, I)
